@@ -95,9 +95,15 @@ class AgentLeg:
         w.swaps = 0
         w.gone = set()
         w.install_now = False
+        w.nested = False
 
         class Mut(Core.System):
             def execute(self_):
+                if w.nested:
+                    # the other model is advanced from INSIDE this system's turn (coupled models): whatever follows in
+                    # this timestep - the collector included - still runs
+                    w.m2.execute()
+                    w.nested = False
                 if w.install_now:
                     m.systems.add_system(w.col)      # a (burn-in) system installs the collector during a timestep
                     w.install_now = False
@@ -199,6 +205,7 @@ class AgentLeg:
             if installing:
                 w.install_now = True
             if op[0] == 'step_with':
+                w.nested = True
                 w.pending.append((op[1], op[2]))
                 if op[1] == 'join':
                     w.res.append(op[2])
@@ -226,7 +233,10 @@ class AgentLeg:
             if w.pending:
                 raise Violation('the priority-0 system did not run in this timestep', observed=w.pending)
         if op[0] in ('step', 'step_with', 'step_install'):
-            w.m2.execute()
+            if op[0] != 'step_with':       # step_with: already advanced from inside the priority-0 system's turn
+                w.m2.execute()
+            elif w.nested:
+                raise Violation('the priority-0 system did not run in this timestep')
             w.ref2.append({'z': 99})
         if w.col2.records != w.ref2:
             raise Violation(f'{op}: a collector of another model (same collector id) holds foreign records',
@@ -276,6 +286,14 @@ def file_case(case):
                 t = self.model.systems.timestep
                 for i in range(script[t]):
                     self.records.append(f't{t}r{i};')
+
+        if case.get('own_writer'):
+            # the collector overrides write_records() - the documented place to change the output format - and does
+            # not call the base method (here: the same text, written through a different call)
+            class Col(Col):      # noqa
+                def write_records(self):
+                    with open(self.filename, self.filemode) as f:
+                        f.writelines(self.records)
 
         start, end, freq = win
         kw = {'start': start, 'frequency': freq}
@@ -337,6 +355,10 @@ def run(ctx):
         for counts in ([1, 2, 0, 1, 2], [2, 2, 2, 2, 2]):
             for wc in (0, 1, 2):
                 cases.append({'leg': 'file', 'counts': counts, 'write_count': wc, 'win': 0, 'filemode': fm})
+    for counts in ([1, 2, 0, 1, 2], [2, 2, 2, 2, 2], [0, 0, 1, 0, 1]):
+        for wc in (0, 1, 2):
+            for wi in range(len(WINDOWS)):
+                cases.append({'leg': 'file', 'counts': counts, 'write_count': wc, 'win': wi, 'own_writer': True})
     # large backlogs: many records per collection, flush sizes at and around powers of two
     for per in (8, 16, 64, 63, 65):
         for wc in (0, 1, 3, 7):
